@@ -34,13 +34,39 @@ def devsets(K):
     return sorted(sets, key=lambda s: (len(s), sorted(s)))
 
 
-def sample(vectors, nshapes, seed):
-    """Every vector of a seeded random subset of at most nshapes method shapes."""
-    keys = sorted({hg.shape_key(v) for v in vectors})
+def sample(vectors, nshapes, seed, fam):
+    """Every vector of a seeded subset of the method shapes: first a greedy cover of all pairs of attribute features
+    (kind, location, mode, rule, nesting) that occur, then random shapes up to nshapes."""
+    side = "pa" if fam == "req" else "ra"
+    shapes = {}
+    for v in vectors:
+        shapes.setdefault(hg.shape_key(v), v[side][0])
+    keys = sorted(shapes)
     if len(keys) <= nshapes:
         return vectors
-    keep = set(random.Random(seed).sample(keys, nshapes))
-    return [v for v in vectors if hg.shape_key(v) in keep]
+    rnd = random.Random(seed)
+    rnd.shuffle(keys)
+    fields = ("kind", "loc", "mode", "rule", "nest")
+
+    def pairs(a):
+        return {(f, a[f], g, a[g]) for i, f in enumerate(fields) for g in fields[i + 1:]}
+    todo = set()
+    for k in keys:
+        todo |= pairs(shapes[k])
+    keep = []
+    while todo:
+        best = max(keys, key=lambda k: len(pairs(shapes[k]) & todo))
+        gain = pairs(shapes[best]) & todo
+        if not gain:
+            break
+        keep.append(best)
+        todo -= gain
+    chosen = set(keep)
+    for k in keys:
+        if len(chosen) >= nshapes:
+            break
+        chosen.add(k)
+    return [v for v in vectors if hg.shape_key(v) in chosen]
 
 
 def xb(v):
@@ -124,7 +150,7 @@ def judge(ctx, fam, cases, verd, K, nontrivial, pending, traces):
             ctx.cov["not_judged_wire_ambiguous"] = ctx.cov.get("not_judged_wire_ambiguous", 0) + 1
             continue
         if not blind:
-            traces.append((c["id"], osx.trace_lines(v, o, sv)))
+            traces.setdefault((len(v["pa"]), len(v["ra"])), []).extend(osx.trace_lines(v, o, sv))
         if so != inv or (al["mustInvoke"] and not so) or (al["mustReject"] and so):
             what = "schema-accepts/server-rejects" if so and not inv else ("schema-rejects/server-accepts" if inv and not so else
                                                                            ("both-accept-invalid" if so else "both-reject-valid"))
@@ -155,8 +181,9 @@ def run(ctx):
     if not quick:
         guards += [(d, "req") for d in ("param.empty_string_is_absent", "validate.absent_collection_length", "mux.double_unescape")]
     import concurrent.futures as cf
-    nshapes = int(os.environ.get("VERIF_SHAPES") or (100 if quick else 100000))     # method shapes per family
-    nontrivial, pending, traces = set(), [], []
+    nshapes = int(os.environ.get("VERIF_SHAPES") or (130 if quick else 100000))     # method shapes per family
+    nontrivial, pending, traces = set(), [], {}
+    nrand = int(os.environ.get("VERIF_RANDOM") or (60 if quick else 1500))
     with cf.ThreadPoolExecutor(max_workers=6) as ex:
         gens = {fam: ex.submit(osx.gen_vectors, ctx, fam, None, 4) for fam in ("req", "res")}
         gs = [ex.submit(ctx.mc_expect_violation, "mc/MC_OpenAPIOps", "mc/MC_OpenAPIOps_schema.cfg", workers=3,
@@ -166,9 +193,14 @@ def run(ctx):
         # (G)
         groups = []
         for fam in ("req", "res"):
-            vectors = sample(gens[fam].result(), nshapes, ctx.seed)
+            vectors = sample(gens[fam].result(), nshapes, ctx.seed, fam)
             groups.append((fam, [v for v in vectors if not xb(v)]))
             groups.append((fam, [v for v in vectors if xb(v)]))         # designs of their own: their documents may not load
+    # (J) random exchanges beyond the enumeration: two attributes per method, drawn by TLC in simulation mode
+    for fam, npa, nra in (("req", 2, 1), ("res", 1, 2)):
+        rv = osx.gen_vectors(ctx, fam, npa=npa, nra=nra, simulate=nrand)
+        groups.append((fam, [v for v in rv if not xb(v)]))
+        groups.append((fam, [v for v in rv if xb(v)]))
     cases, pl = osx.run_exchanges(ctx, [g for g in groups if g[1]])
     verd = osx.verdicts_for(ctx, cases, pl)
     for fam in ("req", "res"):
@@ -222,15 +254,17 @@ def run(ctx):
     err_traces = error_responses(ctx, K, quick)
     ctx.cov["distinct_nontrivial"] = len(nontrivial)
     # (J) trace validation
-    lines = [l for _, ls in traces for l in ls] + err_traces
-    rejected = validate(ctx, lines, K)
-    ctx.cov["traces_validated_against_impl"] += len(lines)
-    for n, line, ctxline in rejected:
-        ctx.cov.setdefault("trace_rejections", []).append({"line": n, "ev": line.get("ev")})
-        ctx.violation("C14/trace/%s" % line.get("ev"), "trace line %d rejected by Trace_OpenAPIOps (XTraceSpec): %s after %s" % (
-            n, json.dumps(line)[:200], json.dumps(ctxline)[:300]), {"line": line, "reset": ctxline})
+    traces.setdefault((1, 1), []).extend(err_traces)
+    nlines = 0
+    for (npa, nra), lines in sorted(traces.items()):
+        nlines += len(lines)
+        for n, line, ctxline in validate(ctx, lines, K, npa, nra):
+            ctx.cov.setdefault("trace_rejections", []).append({"line": n, "ev": line.get("ev"), "arity": [npa, nra]})
+            ctx.violation("C14/trace/%s" % line.get("ev"), "trace line %d rejected by Trace_OpenAPIOps (XTraceSpec): %s after %s" % (
+                n, json.dumps(line)[:200], json.dumps(ctxline)[:300]), {"line": line, "reset": ctxline})
+    ctx.cov["traces_validated_against_impl"] += nlines
     if ctx.selftest or not quick:
-        selftest(ctx, lines, K)
+        selftest(ctx, traces[(1, 1)], K)
 
 
 def report(ctx, fam, side, c, sv, what, keys, alone=None):
@@ -321,15 +355,16 @@ def error_responses(ctx, K, quick):
     return lines
 
 
-def validate(ctx, lines, K, maxfail=8):
+def validate(ctx, lines, K, npa=1, nra=1, maxfail=8):
     """Batch trace validation; returns [(line number, rejected line, its xreset line)]."""
     rejected, rest, base = [], list(lines), 0
     while rest and len(rejected) < maxfail:
         d = ctx.subdir("trace")
         p = os.path.join(d, "trace.ndjson")
         open(p, "w").write("".join(json.dumps(l) + "\n" for l in rest))
-        ok, hwm, r = ctx.trace_validate("trace/Trace_OpenAPIOps", "trace/Trace_OpenAPIOps_schema.cfg", p, consts={"Deviations": oc.tla_set(K)},
-                                        label="xtrace-%d" % (len(rejected) + 1), timeout=1500)
+        ok, hwm, r = ctx.trace_validate("trace/Trace_OpenAPIOps", "trace/Trace_OpenAPIOps_schema.cfg", p,
+                                        consts={"Deviations": oc.tla_set(K), "NPA": npa, "NRA": nra},
+                                        label="xtrace-%dx%d-%d" % (npa, nra, len(rejected) + 1), timeout=1500)
         if ok:
             break
         if hwm is None:
